@@ -1,14 +1,15 @@
 import UF.Model.Prog
 /-
-  Helper lemmas about the Prog model (C13, C14, C19): the shared-state invariant `CacheInv`, the
-  thread-local invariant `TInv`, and the bookkeeping quantity `total` (what a thread has collected +
-  what its pending candidate and the remaining candidates contribute according to `truth`).
-  The rely/guarantee structure: `TInv` and `total` mention only thread-local data and `truth`;
-  the only fact about the shared state a thread relies on is `CacheInv`, which every action of every
-  thread preserves.
+  Helper lemmas about the Prog model (C13, C14, C19): the shared-state invariants `CacheInv` (the cache
+  holds what the lists hold) and `CellInv` (a lazy-compile cell is empty or what compiling ITS rule
+  gives), the thread-local invariant `TInv`, and the bookkeeping quantity `Tot` (what a thread has
+  collected, extended by what its pending item and the remaining items contribute according to `truth`).
+  The rely/guarantee structure: `TInv` and `Tot` mention only thread-local data and the immutable `Env`;
+  the facts about the shared state a thread relies on are `CacheInv`, `CellInv` and "a cell that is set
+  never changes" (`CellsLe`), which every action of every thread guarantees.
 -/
 namespace UF.Prog
-variable {R : Type}
+variable {R Re : Type}
 
 /-- No per-request data survives the refill of a pooled request. -/
 theorem fill_overwrites' (etld1 : Bytes → Bytes) (old : Request) (d : DReq) :
@@ -16,8 +17,29 @@ theorem fill_overwrites' (etld1 : Bytes → Bytes) (old : Request) (d : DReq) :
   simp only [fillFromPool, fillRequestForHostname]
 
 /-- The cache only holds what the lists hold. -/
-def CacheInv (env : Env R) (s : State R) : Prop :=
+def CacheInv (env : Env R Re) (s : State R Re) : Prop :=
   ∀ idx r, (idx, r) ∈ s.cache → env.truth idx = some r
+
+/-- The rule an object is: the rule of its storage index / the entry of the sequential table. -/
+def Env.objRule (env : Env R Re) : Obj → Option R
+  | .st idx => env.truth idx
+  | .seq k => env.resident[k]?
+
+/-- A lazy-compile cell is a function of the rule: it is empty, or what `preparePattern` leaves behind
+    on that object's rule. -/
+def CellInv (env : Env R Re) (s : State R Re) : Prop :=
+  ∀ ob, s.cells ob = .uncompiled ∨ ∃ r, env.objRule ob = some r ∧ s.cells ob = (env.compile r).cell
+
+/-- The invariant of the shared state. -/
+def SInv (env : Env R Re) (s : State R Re) : Prop := CacheInv env s ∧ CellInv env s
+
+/-- A cell that is set keeps its value (`regex` is written once, `invalid` is only ever set). -/
+def CellsLe (s s' : State R Re) : Prop := ∀ ob, s.cells ob ≠ .uncompiled → s'.cells ob = s.cells ob
+
+theorem CellsLe.refl (s : State R Re) : CellsLe s s := fun _ _ => rfl
+
+theorem sinv_init (env : Env R Re) : SInv env ({} : State R Re) :=
+  ⟨fun _ _ h => by simp at h, fun _ => Or.inl rfl⟩
 
 theorem cacheLookup_mem {c : List (Idx × R)} {idx : Idx} {r : R} (h : cacheLookup c idx = some r) :
     (idx, r) ∈ c := by
@@ -37,6 +59,15 @@ theorem mem_cacheInsert {c : List (Idx × R)} {idx i : Idx} {r x : R} (h : (i, x
   rcases h with h | h
   · exact Or.inl h
   · exact Or.inr h.1
+
+theorem cacheLookup_isSome_of_mem {c : List (Idx × R)} {idx : Idx} {r : R} (h : (idx, r) ∈ c) :
+    (cacheLookup c idx).isSome := by
+  unfold cacheLookup
+  cases hf : c.find? (fun e => e.1 == idx) with
+  | some e => simp
+  | none =>
+    have := List.find?_eq_none.mp hf _ h
+    simp at this
 
 theorem cacheLookup_insert_isSome {c : List (Idx × R)} {idx i : Idx} {r : R}
     (h : (cacheLookup c i).isSome) : (cacheLookup (cacheInsert c idx r) i).isSome := by
@@ -59,72 +90,110 @@ theorem cacheLookup_insert_isSome {c : List (Idx × R)} {idx i : Idx} {r : R}
           rw [List.filter_cons, hf]; simp only [if_true, List.find?_cons, ih]
     rw [this]; exact h
 
-/-! ### what a candidate contributes -/
+/-! ### the bookkeeping quantity -/
 
-theorem pureStorage_nil (env : Env R) (req : Request) : pureStorage env req [] = [] := rfl
+theorem pureFold_nil (env : Env R Re) (req : Request) (acc : List (Item × R)) : pureFold env req acc [] = acc := rfl
 
-theorem pureStorage_cons (env : Env R) (req : Request) (i : Idx) (rest : List Idx) :
-    pureStorage env req (i :: rest) = pureStorage env req [i] ++ pureStorage env req rest := by
-  simp only [pureStorage, List.filterMap_cons, List.filterMap_nil]
-  cases env.truth i with
-  | none => simp
-  | some v => simp only [List.filter_cons]; split <;> simp
+theorem pureFold_cons (env : Env R Re) (req : Request) (acc : List (Item × R)) (it : Item) (rest : List Item) :
+    pureFold env req acc (it :: rest) = pureFold env req (pureStep env req acc it) rest := rfl
 
-/-- the contribution of a retrieved rule -/
-def one (env : Env R) (req : Request) (r : R) : List R := if env.mtch r req then [r] else []
+theorem pureFold_append (env : Env R Re) (req : Request) (acc : List (Item × R)) (xs ys : List Item) :
+    pureFold env req acc (xs ++ ys) = pureFold env req (pureFold env req acc xs) ys := by
+  simp [pureFold, List.foldl_append]
 
-theorem pureStorage_single_some {env : Env R} {req : Request} {i : Idx} {r : R} (h : env.truth i = some r) :
-    pureStorage env req [i] = one env req r := by
-  simp [pureStorage, h, one, List.filter_cons]
-
-theorem pureStorage_single_none {env : Env R} {req : Request} {i : Idx} (h : env.truth i = none) :
-    pureStorage env req [i] = [] := by
-  simp [pureStorage, h]
-
-/-- what the candidate in progress will contribute -/
-def pend (env : Env R) (t : Thread R) : List R :=
+/-- what the thread will have collected when the item in progress is finished (according to `truth`) -/
+def pendAcc (env : Env R Re) (t : Thread R) : List (Item × R) :=
   match t.pc with
-  | .get idx => pureStorage env t.req [idx]
-  | .read idx => pureStorage env t.req [idx]
-  | .put _ r => one env t.req r
-  | .comp r => one env t.req r
-  | _ => []
+  | .get src idx => pureStep env t.req t.acc (.st src idx)
+  | .read src idx => pureStep env t.req t.acc (.st src idx)
+  | .put src idx r => useStep env t.req t.acc src idx ((some r).filter (env.wants src))
+  | .use src idx o => useStep env t.req t.acc src idx o
+  | .seq k => seqStep env t.req t.acc k
+  | .prep it r => if env.mtch r t.req then t.acc ++ [(it, r)] else t.acc
+  | .rx it r => if env.mtch r t.req then t.acc ++ [(it, r)] else t.acc
+  | _ => t.acc
 
-/-- collected so far ++ pending ++ still to do (all according to `truth`) -/
-def total (env : Env R) (t : Thread R) : List R :=
-  t.acc ++ pend env t ++ pureStorage env t.req t.todo
+/-- collected so far, extended by the pending item and the items still to do (all according to `truth`) -/
+def Tot (env : Env R Re) (t : Thread R) : List (Item × R) := pureFold env t.req (pendAcc env t) t.todo
 
-theorem total_advance (env : Env R) (t : Thread R) :
-    total env t.advance = t.acc ++ pureStorage env t.req t.todo := by
-  unfold Thread.advance
-  cases h : t.todo with
-  | nil => simp [total, pend, pureStorage_nil]
-  | cons i rest => simp [total, pend, pureStorage_cons env t.req i rest]
+/-- what `Tot` is compared with: the stateless result of the stage the thread is in -/
+def target (env : Env R Re) (t : Thread R) : List (Item × R) :=
+  if t.stage then pure2 env t.q t.req else pure1 env t.req
 
 @[simp] theorem advance_q (t : Thread R) : t.advance.q = t.q := by
-  unfold Thread.advance; split <;> rfl
+  unfold Thread.advance; split <;> (try split) <;> rfl
 @[simp] theorem advance_req (t : Thread R) : t.advance.req = t.req := by
-  unfold Thread.advance; split <;> rfl
+  unfold Thread.advance; split <;> (try split) <;> rfl
 @[simp] theorem advance_acc (t : Thread R) : t.advance.acc = t.acc := by
-  unfold Thread.advance; split <;> rfl
+  unfold Thread.advance; split <;> (try split) <;> rfl
+@[simp] theorem advance_stage (t : Thread R) : t.advance.stage = t.stage := by
+  unfold Thread.advance; split <;> (try split) <;> rfl
 
-/-- Thread-local invariant. -/
-structure TInv (env : Env R) (t : Thread R) : Prop where
-  req_eq : t.pc ≠ .start → t.req = env.reqOf t.q
-  put_ok : ∀ idx r, t.pc = .put idx r → env.truth idx = some r
-  fin_todo : t.pc = .fin ∨ t.pc = .done → t.todo = []
+theorem Tot_advance (env : Env R Re) (t : Thread R) :
+    Tot env t.advance = pureFold env t.req t.acc t.todo := by
+  unfold Thread.advance
+  split
+  · next h => split <;> simp [Tot, pendAcc, h]
+  · next h => simp [Tot, pendAcc, h, pureFold_cons]
+  · next h => simp [Tot, pendAcc, h, pureFold_cons, pureStep]
 
-theorem tinv_init (env : Env R) (q : Query) : TInv env (Thread.init q) :=
-  ⟨fun h => absurd rfl h, fun _ _ h => by simp [Thread.init] at h, fun h => by simp [Thread.init] at h⟩
+theorem target_advance (env : Env R Re) (t : Thread R) : target env t.advance = target env t := by
+  simp [target]
 
 theorem advance_pc_ne_start (t : Thread R) : t.advance.pc ≠ .start := by
-  unfold Thread.advance; split <;> simp
+  unfold Thread.advance; split <;> (try split) <;> simp
 
-theorem tinv_advance {env : Env R} {t : Thread R} (h : t.req = env.reqOf t.q) : TInv env t.advance := by
-  refine ⟨fun _ => by simpa using h, ?_, ?_⟩
-  · intro idx r; unfold Thread.advance; split <;> simp
+theorem advance_pc_ne_crash (t : Thread R) : t.advance.pc ≠ .crash := by
+  unfold Thread.advance; split <;> (try split) <;> simp
+
+theorem advance_pc_ne_done (t : Thread R) : t.advance.pc ≠ .done := by
+  unfold Thread.advance; split <;> (try split) <;> simp
+
+/-- Thread-local invariant. -/
+structure TInv (env : Env R Re) (t : Thread R) : Prop where
+  req_eq : t.pc ≠ .start → t.q.trivial = false → t.req = env.reqOf t.q
+  put_ok : ∀ src idx r, t.pc = .put src idx r → env.truth idx = some r
+  use_ok : ∀ src idx r, t.pc = .use src idx (some r) → env.truth idx = some r ∧ env.wants src r = true
+  prep_ok : ∀ it r, (t.pc = .prep it r ∨ t.pc = .rx it r) → env.objRule it.obj = some r ∧ env.pre r t.req = true
+  end_todo : (t.pc = .mid ∨ t.pc = .fin ∨ t.pc = .done) → t.todo = []
+  mid_stage : t.pc = .mid → t.stage = false
+  fin_stage : t.pc = .fin → t.stage = true
+  done_stage : t.pc = .done → t.q.trivial = false → t.stage = true
+  triv : t.q.trivial = true → t.pc ≠ .start → t.pc = .done ∧ t.acc = []
+
+theorem tinv_init (env : Env R Re) (q : Query) : TInv env (Thread.init q) := by
+  refine ⟨fun h => absurd rfl h, ?_, ?_, ?_, ?_, ?_, ?_, ?_, fun _ h => absurd rfl h⟩ <;> simp [Thread.init]
+
+/-- A thread that has started and is not finished runs a non-trivial query. -/
+theorem TInv.nontriv {env : Env R Re} {t : Thread R} (ht : TInv env t) (hs : t.pc ≠ .start) (hd : t.pc ≠ .done) :
+    t.q.trivial = false := by
+  cases h : t.q.trivial with
+  | false => rfl
+  | true => exact absurd (ht.triv h hs).1 hd
+
+theorem tinv_advance {env : Env R Re} {t : Thread R} (h : t.req = env.reqOf t.q) (hq : t.q.trivial = false) :
+    TInv env t.advance := by
+  refine ⟨fun _ _ => by simpa using h, ?_, ?_, ?_, ?_, ?_, ?_, ?_, ?_⟩
+  · intro src idx r; unfold Thread.advance; split <;> (try split) <;> simp
+  · intro src idx r; unfold Thread.advance; split <;> (try split) <;> simp
+  · intro it r; unfold Thread.advance; split <;> (try split) <;> simp
   · unfold Thread.advance; split
-    · next h' => intro _; simpa using h'
+    · next h' => split <;> (intro _; simpa using h')
     · simp
+    · simp
+  · unfold Thread.advance; split
+    · split
+      · simp
+      · next hs => intro _; simpa using hs
+    · simp
+    · simp
+  · unfold Thread.advance; split
+    · split
+      · next hs => intro _; simpa using hs
+      · simp
+    · simp
+    · simp
+  · intro hd; exact absurd hd (advance_pc_ne_done t)
+  · intro ht; rw [advance_q, hq] at ht; cases ht
 
 end UF.Prog
